@@ -390,11 +390,11 @@ theorem qsim_makeRef_go {P : Qp} (orig : Nat) (name : String) (ho : P.σ.n0 ≤ 
           · intro _ _ s1 t1 hR1 _
             have hres : QOptq P (some (ren P.σ r)) (some r) := ⟨rfl, fun v h => by cases h; exact hcr⟩
             have hjp : ∀ (rd rd' : Nat), rd = rd' → SimQ P
-                (if (!(isConstant name && rd == 0) && !isFuncObj obj) = true then do
+                (if (!(isConstant name && rd == 0) && !(isFuncObj obj && rd == 0)) = true then do
                     let __r ← modifyFrame (sh P.σ orig) fun f => { f with getMiss := f.getMiss + 1 }
                     (fun _ => pure (some (ren P.σ r)) : Unit → M (Option Obj)) __r
                   else pure (some (ren P.σ r)))
-                (if (!(isConstant name && rd' == 0) && !isFuncObj obj) = true then do
+                (if (!(isConstant name && rd' == 0) && !(isFuncObj obj && rd' == 0)) = true then do
                     let __r ← modifyFrame orig fun f => { f with getMiss := f.getMiss + 1 }
                     (fun _ => pure (some r) : Unit → M (Option Obj)) __r
                   else pure (some r)) s1 t1 (QOptq P) := by
@@ -461,7 +461,7 @@ theorem qsim_envGet {P : Qp} {s t : St} (hR : StRq P s t) (e : Nat) (name : Stri
           else do
             let tgt ← refValue re rn
             let __do_lift ← getFrame re
-            if (!(isConstant rn && __do_lift.depth == 0) && !isFuncObj tgt) = true then do
+            if (!(isConstant rn && __do_lift.depth == 0) && !(isFuncObj tgt && __do_lift.depth == 0)) = true then do
                 modifyFrame (sh P.σ e) fun f => { f with getMiss := f.getMiss + 1 }
                 pure (some (Obj.ref re rn))
               else pure (some (Obj.ref re rn))
@@ -481,7 +481,7 @@ theorem qsim_envGet {P : Qp} {s t : St} (hR : StRq P s t) (e : Nat) (name : Stri
           else do
             let tgt ← refValue re rn
             let __do_lift ← getFrame re
-            if (!(isConstant rn && __do_lift.depth == 0) && !isFuncObj tgt) = true then do
+            if (!(isConstant rn && __do_lift.depth == 0) && !(isFuncObj tgt && __do_lift.depth == 0)) = true then do
                 modifyFrame e fun f => { f with getMiss := f.getMiss + 1 }
                 pure (some (Obj.ref re rn))
               else pure (some (Obj.ref re rn))
